@@ -326,7 +326,8 @@ fn obtain_lazy(src: &Arc<Source>, j: &J, span: &Span, path: &[Step]) -> Result<H
                 let pj = gen::at_path(j, ppath).unwrap();
                 match (&last[0], pj) {
                     (Step::Idx(i), J::Arr(_)) => {
-                        let item = libcall("to_array_iter", || sonic_rs::to_array_iter(ptext).nth(*i))?;
+                        let unchecked = route == 8;
+                        let item = libcall("to_array_iter", || if unchecked { sonic_rs::to_array_iter_unchecked(ptext).nth(*i) } else { sonic_rs::to_array_iter(ptext).nth(*i) })?;
                         match item {
                             Some(Ok(lv)) => stat(lv),
                             other => return Err(Violation::new("mismatch/array-iter", format!("to_array_iter item {} of {:?}: {:?}", i, oracle::truncate(ptext), other.map(|r| r.map(|_| ()).map_err(|e| e.to_string())))))
@@ -334,7 +335,8 @@ fn obtain_lazy(src: &Arc<Source>, j: &J, span: &Span, path: &[Step]) -> Result<H
                     }
                     (Step::Key(k), J::Obj(mm)) => {
                         let pos = mm.iter().position(|(kk, _)| kk == k).unwrap();
-                        let item = libcall("to_object_iter", || sonic_rs::to_object_iter(ptext).nth(pos))?;
+                        let unchecked = route == 8;
+                        let item = libcall("to_object_iter", || if unchecked { sonic_rs::to_object_iter_unchecked(ptext).nth(pos) } else { sonic_rs::to_object_iter(ptext).nth(pos) })?;
                         match item {
                             Some(Ok((key, lv))) => {
                                 if key.as_ref() != k.as_str() {
@@ -478,6 +480,10 @@ fn read_lazy(v: &LazyValue<'static>, m: &LM, what: &str) -> Result<(), Violation
                     if item.as_raw_str() != &m.text[cs.start..cs.end] {
                         return Err(Violation::new("mismatch/child-raw", format!("{}: iterated element {} raw differs", what, i)));
                     }
+                    oracle::check_scalars(&item, &a[i], &format!("{} (element {} from into_array_iter)", what, i))?;
+                    // borrowed -> owned of an iterated item keeps its meaning
+                    let o = OwnedLazyValue::from(item);
+                    oracle::check_scalars(&o, &a[i], &format!("{} (owned from iterated element {})", what, i))?;
                     n += 1;
                 }
                 if n != a.len() {
@@ -510,6 +516,9 @@ fn read_lazy(v: &LazyValue<'static>, m: &LM, what: &str) -> Result<(), Violation
                     if item.as_raw_str() != &m.text[cs.start..cs.end] {
                         return Err(Violation::new("mismatch/child-raw", format!("{}: iterated member {} raw differs", what, i)));
                     }
+                    oracle::check_scalars(&item, &mm[i].1, &format!("{} (member {} from into_object_iter)", what, i))?;
+                    let o = OwnedLazyValue::from(item);
+                    oracle::check_scalars(&o, &mm[i].1, &format!("{} (owned from iterated member {})", what, i))?;
                     n += 1;
                 }
                 if n != mm.len() {
